@@ -1,6 +1,152 @@
 ------------------------------ MODULE Analysis ------------------------------
-(* range notation, pot shares, ICM - filled in by the C18 check *)
+(***************************************************************************)
+(* C18: what range notation denotes, what an equity is (a share of one pot *)
+(* split like the engine splits it), and the independent chip model - as   *)
+(* exact mathematics.  Cards are integers as in Hands.tla; ranks 0..12 in  *)
+(* deuce..ace order; a two-card hand is a set of two cards.                *)
+(***************************************************************************)
 EXTENDS Hands, TLC
-AnalysisKinds == {}
-AnalysisOK(k, it) == TRUE
+
+Suits == 0..3
+Card(r, s) == r * 4 + s
+
+(***************************************************************************)
+(* Ranges.  mode "" (both), "s" (suited), "o" (offsuit).                   *)
+(***************************************************************************)
+Suited(r0, r1) == IF r0 = r1 THEN {} ELSE {{Card(r0, s), Card(r1, s)} : s \in Suits}
+Offsuit(r0, r1) == {{Card(r0, s), Card(r1, u)} : <<s, u>> \in {x \in Suits \X Suits : x[1] # x[2]}}
+Combos(r0, r1, mode) ==
+  IF r0 = r1 THEN (IF mode = "s" THEN {} ELSE Offsuit(r0, r0))       \* a pair: the six ways to pick two suits
+  ELSE CASE mode = "s" -> Suited(r0, r1)
+         [] mode = "o" -> Offsuit(r0, r1)
+         [] OTHER -> Suited(r0, r1) \cup Offsuit(r0, r1)
+\* "XY+": pairs - this pair and every higher one; otherwise the higher card kept, the kicker raised up to just below it
+Plus(r0, r1, mode) ==
+  IF r0 = r1 THEN UNION {Combos(r, r, mode) : r \in r0..12}
+  ELSE LET hi == IF r0 > r1 THEN r0 ELSE r1
+           lo == IF r0 > r1 THEN r1 ELSE r0
+       IN UNION {Combos(hi, r, mode) : r \in lo..(hi - 1)}
+\* "AB-CD": both cards shifted together from one end to the other; the two ends must be shifts of each other
+DashValid(r0, r1, r2, r3) == r1 - r0 = r3 - r2
+Dash(r0, r1, r2, r3, mode) ==
+  LET a == IF r0 <= r2 THEN r0 ELSE r2
+      b == IF r0 <= r2 THEN r1 ELSE r3
+      n == IF r0 <= r2 THEN r2 - r0 ELSE r0 - r2
+  IN UNION {Combos(a + k, b + k, mode) : k \in 0..n}
+
+RangeOf(f) ==
+  CASE f.form = "plain" -> Combos(f.r0, f.r1, f.mode)
+    [] f.form = "plus" -> Plus(f.r0, f.r1, f.mode)
+    [] f.form = "dash" -> Dash(f.r0, f.r1, f.r2, f.r3, f.mode)
+    [] f.form = "cards" -> {{f.r0, f.r1}}           \* two explicit cards (given as card numbers)
+FormValid(f) == f.form = "dash" => DashValid(f.r0, f.r1, f.r2, f.r3)
+
+AsSets(pairs) == {{pairs[j][1], pairs[j][2]} : j \in DOMAIN pairs}
+WellFormed(pairs) == \A j \in DOMAIN pairs : Len(pairs[j]) = 2 /\ pairs[j][1] # pairs[j][2] /\ pairs[j][1] \in 0..51 /\ pairs[j][2] \in 0..51
+
+\* the identities the notation promises (evaluated on the specification's own sets for the ranks of every case)
+RangeIdentities(r0, r1) ==
+  /\ Cardinality(Combos(r0, r0, "")) = 6
+  /\ r0 # r1 => /\ Cardinality(Combos(r0, r1, "s")) = 4
+                /\ Cardinality(Combos(r0, r1, "o")) = 12
+                /\ Combos(r0, r1, "") = Combos(r0, r1, "s") \cup Combos(r0, r1, "o")
+                /\ Combos(r0, r1, "s") \cap Combos(r0, r1, "o") = {}
+                /\ Combos(r0, r1, "") = Combos(r1, r0, "")
+
+(***************************************************************************)
+(* Exact rationals <<num, den>>, den > 0, reduced.                         *)
+(***************************************************************************)
+RECURSIVE GCD(_, _)
+GCD(a, b) == IF b = 0 THEN a ELSE GCD(b, a % b)
+AbsI(x) == IF x < 0 THEN 0 - x ELSE x
+Norm(q) == LET g == GCD(AbsI(q[1]), q[2]) IN IF q[1] = 0 THEN <<0, 1>> ELSE <<q[1] \div g, q[2] \div g>>
+QAdd(p, q) == Norm(<<p[1] * q[2] + q[1] * p[2], p[2] * q[2]>>)
+QMul(p, q) == Norm(<<p[1] * q[1], p[2] * q[2]>>)
+QLeq(p, q) == p[1] * q[2] <= q[1] * p[2]
+RECURSIVE QSum(_)
+QSum(s) == IF s = <<>> THEN <<0, 1>> ELSE QAdd(Head(s), QSum(Tail(s)))
+
+(***************************************************************************)
+(* Equities: the share of one pot each player gets when all cards are      *)
+(* known.  The pot is divided evenly over the hand types that somebody     *)
+(* qualifies for (as the engine does: a split-pot game without a low pays  *)
+(* everything to the high), each part evenly among its best hands.         *)
+(***************************************************************************)
+Shares(types, holes, board) ==
+  LET N == DOMAIN holes
+      str(t, i) == BestStrength(types[t], holes[i], board)
+      best(t) == Max({str(t, i) : i \in N})
+      play == {t \in DOMAIN types : best(t) # NoHand}
+      wins(t) == {i \in N : str(t, i) = best(t)}
+  IN [i \in N |-> IF play = {} THEN <<0, 1>>
+                  ELSE QSum([t \in DOMAIN types |-> IF t \in play /\ i \in wins(t) THEN <<1, Cardinality(play) * Cardinality(wins(t))>> ELSE <<0, 1>>])]
+
+(***************************************************************************)
+(* ICM: finishing orders are drawn without replacement with probability    *)
+(* proportional to chips; a player's value is his expected payout.         *)
+(***************************************************************************)
+RECURSIVE OrderProb(_, _, _)
+\* probability that the players of `order` (a sequence of distinct players) take the first places in this order
+OrderProb(chips, order, rest) ==
+  IF order = <<>> THEN <<1, 1>>
+  ELSE QMul(<<chips[Head(order)], rest>>, OrderProb(chips, Tail(order), rest - chips[Head(order)]))
+RECURSIVE Orders(_, _)
+Orders(S, k) == IF k = 0 THEN {<<>>} ELSE UNION {{<<x>> \o o : o \in Orders(S \ {x}, k - 1)} : x \in S}
+SumChips(chips) == LET RECURSIVE F(_) F(j) == IF j = 0 THEN 0 ELSE chips[j] + F(j - 1) IN F(Len(chips))
+ICM(payouts, chips) ==
+  LET N == DOMAIN chips
+      k == IF Len(payouts) < Len(chips) THEN Len(payouts) ELSE Len(chips)
+      total == SumChips(chips)
+      os == SetToSeq(Orders(N, k))
+  IN [i \in N |-> QSum([x \in DOMAIN os |->
+                          LET o == os[x]
+                              pos == {j \in 1..k : o[j] = i}
+                          IN IF pos = {} THEN <<0, 1>>
+                             ELSE QMul(<<payouts[CHOOSE j \in pos : TRUE], 1>>, OrderProb(chips, o, total))])]
+
+AnalysisKinds == {"range", "rangelist", "equity", "icm"}
+
+ARep(k, it, what) == PrintT(<<"MISMATCH", k, it.kind, what, it>>)
+
+RangeItemOK(k, it) ==
+  /\ RangeIdentities(it.f.r0 % 13, it.f.r1 % 13) \/ ARep(k, it, "the specification's own identities fail")
+  /\ IF ~FormValid(it.f) THEN it.raised \/ ARep(k, it, "an invalid form was accepted")
+     ELSE /\ ~it.raised \/ ARep(k, it, "a valid form was refused")
+          /\ it.raised \/ (WellFormed(it.got) \/ ARep(k, it, "an element is not a set of two distinct real cards"))
+          /\ it.raised \/ (AsSets(it.got) = RangeOf(it.f) \/ ARep(k, it, <<"missing", RangeOf(it.f) \ AsSets(it.got), "extra", AsSets(it.got) \ RangeOf(it.f)>>))
+
+ListItemOK(k, it) ==
+  LET want == UNION {RangeOf(it.fs[j]) : j \in DOMAIN it.fs} IN
+  /\ \A j \in DOMAIN it.gots :          \* every spelling (separator style) of the same list
+        /\ WellFormed(it.gots[j]) \/ ARep(k, it, <<"spelling", j, "an element is not a set of two distinct real cards">>)
+        /\ AsSets(it.gots[j]) = want \/ ARep(k, it, <<"spelling", j, "missing", want \ AsSets(it.gots[j]), "extra", AsSets(it.gots[j]) \ want>>)
+
+EquityItemOK(k, it) ==
+  LET sh == Shares(it.types, it.holes, it.board)
+      N == DOMAIN it.holes
+      pot == it.pot
+  IN /\ \A i \in N : QLeq(<<0, 1>>, sh[i])
+     /\ (\E i \in N : sh[i][1] # 0) => QSum([i \in N |-> sh[i]]) = <<1, 1>>
+     /\ \A x \in DOMAIN it.runs :        \* calculate_equities with different sample counts: same, exact answer
+           \A i \in N : Norm(<<it.runs[x][i][1], it.runs[x][i][2]>>) = sh[i]
+                          \/ ARep(k, it, <<"run", x, "player", i, "spec", sh[i], "code", it.runs[x][i]>>)
+     /\ it.engine # <<>> =>             \* what the engine itself paid out of a pot of `pot` chips
+           \A i \in N : it.engine[i] * sh[i][2] = sh[i][1] * pot
+                          \/ ARep(k, it, <<"engine paid", it.engine, "of", pot, "spec share of player", i, sh[i]>>)
+
+IcmItemOK(k, it) ==
+  LET v == ICM(it.payouts, it.chips)
+      N == DOMAIN it.chips
+      kk == IF Len(it.payouts) < Len(it.chips) THEN Len(it.payouts) ELSE Len(it.chips)
+      pool == LET RECURSIVE F(_) F(j) == IF j = 0 THEN 0 ELSE it.payouts[j] + F(j - 1) IN F(kk)
+  IN /\ \A i \in N : QLeq(<<0, 1>>, v[i]) \/ ARep(k, it, "spec: negative value")
+     /\ QSum([i \in N |-> v[i]]) = <<pool, 1>> \/ ARep(k, it, <<"spec: values do not add up to the prize pool", v>>)
+     /\ (\A i, j \in N : (it.chips[i] <= it.chips[j] /\ it.sorted) => QLeq(v[i], v[j])) \/ ARep(k, it, <<"spec: not monotone", v>>)
+     /\ \A i \in N : Norm(<<it.got[i][1], it.got[i][2]>>) = v[i] \/ ARep(k, it, <<"player", i, "spec", v[i], "code", it.got[i]>>)
+
+AnalysisOK(k, it) ==
+  CASE it.kind = "range" -> RangeItemOK(k, it)
+    [] it.kind = "rangelist" -> ListItemOK(k, it)
+    [] it.kind = "equity" -> EquityItemOK(k, it)
+    [] it.kind = "icm" -> IcmItemOK(k, it)
 =============================================================================
